@@ -80,6 +80,9 @@ func runProfile(j *core.Job, cc checkCfg) {
 		if cc.nFuncs > 0 {
 			cfg.NFuncs = cc.nFuncs
 		}
+		if bn%2 == 1 {
+			cfg.OptFile = "a_gen_opt.go" // the template file is then the first file the stages visit
+		}
 		var prog *gen.Prog
 		if cc.profile == "depth" {
 			prog = gen.DepthProg(prng.Derive(j.Seed, cc.prop, bn, "prog"), j.Thorough())
